@@ -58,6 +58,12 @@ CHECKS = {
  "C17": ("exploration", "runtime monitoring: interval-exclusion, no-stale-read and pending-at-quiescence oracles over lock histories recorded on a global logical clock under virtual time",
          "Held on N seeded concurrent histories (owner + local clones + clones on a second endpoint with own or shared cache, guard hold times, commits and dropped write guards): write guards never overlapped any other guard, values never changed under a read guard, every read returned the initial or a committed value that was not stale, no uncommitted value became visible, the final value was the last commit, and nothing was pending at quiescence once all guards were released.",
          "single-thread virtual-time leg; logical clock at the client boundary; loss of a lock holder's connection is not driven yet", "DESIGN.md §3 C17", "rig+history"),
+ "C12": ("exploration", "runtime monitoring: execution-log and id-echo oracle plus an exact linearizability check (unique-bit updates: chain + real-time order) over recorded call histories",
+         "Held on N seeded histories of concurrent clients (local clones and clones on a second endpoint) against ServerRefMut and ServerSharedMut (spawn off/on): every returned result belonged to its own caller and to exactly one execution, call errors to at most one, the returned values were explained by a sequential order of the mutations respecting real-time order although the &mut method suspends between its read and its write, and acknowledged updates were in the final value.",
+         "virtual-time single-thread leg; remote function objects (rfn) and connection faults during calls are not driven yet", "DESIGN.md §3 C12", "rig+history"),
+ "C19": ("exploration", "runtime monitoring: execution-log oracle (checkpoints after quiescence), served-afterwards probe and failing-call table over histories with abandoned calls",
+         "Held on N seeded histories in which 40% of the calls were abandoned after 0-7 polls and calls to an unknown method / with an oversize reply were injected from a newer-trait client: abandoned cancellable calls stopped at their next suspension point, abandoned #[no_cancel] mutations completed, a fresh &mut call was served afterwards, unknown-method calls failed only themselves - except the recorded known finding (an oversize reply ends serve()).",
+         "requests above the client's own request limit are documented to fail that client and are not judged; undecodable requests other than unknown methods are not driven", "DESIGN.md §3 C19", "rig+history"),
 }
 
 NOT_YET = "check not yet implemented in this commit (DESIGN.md §6a gives the order of implementation)"
